@@ -38,6 +38,8 @@ namespace occa {
     for (int i = 0; i < 8; ++i) {
       h[i] = hash.h[i];
     }
+    // Drop the cached short string, it belongs to the previous value
+    h_string.clear();
     for (int i = 0; i < 8; ++i) {
       sh[i] = 0;
     }
@@ -105,7 +107,9 @@ namespace occa {
   }
 
   std::string hash_t::getString() const {
-    if (*this != hash_t(sh)) {
+    // An empty h_string means nothing is cached yet (sh starts as all zeros,
+    // which is also a valid hash value)
+    if (h_string.empty() || (*this != hash_t(sh))) {
       h_string = getFullString();
       h_string = (h_string.size() < 16) ? h_string : h_string.substr(0, 16);
       for (int i = 0; i < 8; ++i) {
